@@ -3,8 +3,9 @@
 (* Validates executions of the real PrefetchedCourierServer, recorded by   *)
 (* harness/prefetch.py, against Prefetch.tla.  Many traces per TLC run:     *)
 (* the initial state picks a trace id; every step consumes one recorded     *)
-(* event, binding its arguments; the only unlogged step is Stop(g) (the     *)
-(* internal _stop_prefetch), composed silently before an event.             *)
+(* event, binding its arguments; the unlogged steps are Stop(g) (the         *)
+(* internal _stop_prefetch) and Take(r) (a handler dequeues one item),       *)
+(* composed silently before an event.                                       *)
 (***************************************************************************)
 EXTENDS Prefetch, Json, IOUtils, TLCExt
 
@@ -36,13 +37,13 @@ EvStep ==
        [] e.ev = "NextCall"  -> NextCall(e.r, e.k)
        [] e.ev = "NextRet"   ->
             /\ NextRet(e.r, e.n, e.mk)
-            \* the items are the next n items of the generator installed when the request was made
-            /\ \A j \in 1..e.n : e.items[j] = <<req[e.r].g, delivered[req[e.r].g] + j>>
+            \* the items are the ones this request took from the generator installed when the request was made
+            /\ \A j \in 1..e.n : e.items[j] = <<req[e.r].g, taken[e.r][j]>>
        [] OTHER -> FALSE
   /\ Consume
 
 \* silent: the server stops its current generator (init of a newer one, stop_prefetch, shutdown)
-Silent == /\ More /\ cur # 0 /\ Stop(cur) /\ UNCHANGED <<tid, l>>
+Silent == /\ More /\ ((cur # 0 /\ Stop(cur)) \/ \E r \in Reqs : Take(r)) /\ UNCHANGED <<tid, l>>
 
 TNext == EvStep \/ Silent
 TSpec == TInit /\ [][TNext]_tvars
